@@ -302,6 +302,14 @@ def r5(p, rep, rid="C15.R5"):
                 defs = set(rd.defs_reaching(cfg.node_for(ap), T))
                 ok = bool(defs) and defs <= align_nodes
                 rep.add(rid, f"{f.qualname}:append({T})", f"{f.module.rel}:{ap.lineno}", ok, f"`{T}` appended to the operand list is always the result of the alignment helper" if ok else f"on some path `{norm(ap)}` appends the raw operand (the loop variable) instead of the aligned one: the elementary / user function then receives operands of different rank (e.g. a Python scalar next to an n-d array), against the documented equal-rank guarantee")
+        # comprehension form: [align(...) for tensor, expr in zip(...)]
+        for lc in [x for x in walk_no_nested(f.node) if isinstance(x, (ast.ListComp, ast.GeneratorExp))]:
+            calls = [c for c in ast.walk(lc.elt) if isinstance(c, ast.Call) and norm(c.func).split(".")[-1] == "_squeeze_transpose_broadcast"]
+            if not calls:
+                continue
+            n += 1
+            direct = lc.elt is calls[0] and not any(g.ifs for g in lc.generators)
+            rep.add(rid, f"{f.qualname}:comprehension(align)", f"{f.module.rel}:{lc.lineno}", direct, "every operand of the comprehension goes through the alignment helper" if direct else f"`{norm(lc.elt)[:70]}` aligns only some operands (conditional element / filtered comprehension): the others reach the elementary function with their own rank")
     if n == 0:
         raise AnalysisError("unrecognised idiom: no operand-alignment loop found in einx._src.adapter")
 
